@@ -1,0 +1,38 @@
+//go:build verif
+// +build verif
+
+// Package quic (verif build): stub of the QUIC transport so that the root
+// package links without quic-go/qtls, which panic in init on recent Go
+// toolchains. Every entry point reports that QUIC is unavailable.
+package quic
+
+import (
+	"context"
+	"crypto/tls"
+	"errors"
+	"net"
+)
+
+var errStubbed = errors.New("quic: transport stubbed out by the verif build tag")
+
+// Config is a placeholder for quic-go's Config.
+type Config struct{}
+
+// Conn is a placeholder QUIC connection.
+type Conn struct{ net.Conn }
+
+// Listener is a placeholder QUIC listener.
+type Listener struct{ net.Listener }
+
+// DialAddrContext always fails in the verif build.
+func DialAddrContext(ctx context.Context, network string, laddr *net.UDPAddr, raddr string, tlsConf *tls.Config, config *Config) (net.Conn, error) {
+	return nil, errStubbed
+}
+
+// InheritedListen always fails in the verif build.
+func InheritedListen(network, laddr string, tlsConf *tls.Config, config *Config) (net.Listener, error) {
+	return nil, errStubbed
+}
+
+// SetInherited does nothing in the verif build.
+func SetInherited() error { return nil }
